@@ -709,6 +709,87 @@ func c11BufEnd(results *ndWriter, sd int64) {
 	}
 }
 
+// c11PipeClose: the in-memory transport the library ships (p2p.Pipe).  One end sends a sequence of typed values and
+// closes; the other end starts late and reads slowly.  "Closing delivers everything still buffered": every value
+// must arrive, whatever the timing of the Close.
+func c11PipeClose(results *ndWriter, sd int64) {
+	rng := rand.New(rand.NewSource(sd*7919 + 77))
+	kinds := []string{"byte", "u16", "u32", "label", "data", "sizes"}
+	for idx := 0; idx < 6; idx++ {
+		res := &Result{Case: 1000 + idx, Class: "pipe-close", Nontrivial: true}
+		a, b := p2p.Pipe()
+		var vals []*c11Val
+		nv := 3 + rng.Intn(6)
+		for i := 0; i < nv; i++ {
+			k := kinds[rng.Intn(len(kinds))]
+			n := []int{0, 1, 100, 4096, 70000}[rng.Intn(5)]
+			if k == "sizes" {
+				n = rng.Intn(5)
+			}
+			vals = append(vals, mkVal(k, n, uint64(sd)*1000+uint64(idx*50+i)))
+		}
+		flushFirst := idx%2 == 0
+		delay := time.Duration([]int{0, 5, 40}[idx%3]) * time.Millisecond
+		var sendErr error
+		sendDone := make(chan struct{})
+		go func() {
+			defer close(sendDone)
+			defer func() {
+				if x := recover(); x != nil {
+					sendErr = fmt.Errorf("panic: %v", x)
+				}
+			}()
+			for _, v := range vals {
+				if err := v.send(a); err != nil {
+					sendErr = err
+					return
+				}
+			}
+			if flushFirst {
+				if err := a.Flush(); err != nil {
+					sendErr = err
+					return
+				}
+			}
+			sendErr = a.Close()
+		}()
+		what := ""
+		ok := withTimeout(15*time.Second, func() {
+			time.Sleep(delay)
+			for i, v := range vals {
+				same, d, err := v.recv(b)
+				if err != nil {
+					what = fmt.Sprintf("value %d of %d (%s): %v", i, len(vals), v.kind, err)
+					return
+				}
+				if !same {
+					what = fmt.Sprintf("value %d of %d (%s) differs: %s", i, len(vals), v.kind, d)
+					return
+				}
+				if delay > 0 && i == 0 {
+					time.Sleep(delay)
+				}
+			}
+		})
+		if !ok {
+			res.viol("pipe-close:stall", "p2p.Pipe: the reader does not obtain the values sent before Close (reader delay %v, flush before close %v)", delay, flushFirst)
+		} else if what != "" {
+			res.viol("pipe-close:undelivered", "p2p.Pipe: sender sent %d values and closed; reader (delay %v, flush before close %v): %s", len(vals), delay, flushFirst, what)
+		}
+		select {
+		case <-sendDone:
+			if sendErr != nil && ok && what == "" {
+				res.viol("pipe-close:send-error", "p2p.Pipe: sender fails although the reader received everything: %v", sendErr)
+			}
+		case <-time.After(5 * time.Second):
+			if ok && what == "" {
+				res.viol("pipe-close:close-hangs", "p2p.Pipe: Close does not return although the reader received everything")
+			}
+		}
+		results.put(res)
+	}
+}
+
 func c11Main(args []string) error {
 	if len(args) < 2 || (len(args) < 3 && args[0] != "bufend") {
 		return fmt.Errorf("usage: vh c11 replay|record in out [n] | bufend out")
@@ -721,6 +802,7 @@ func c11Main(args []string) error {
 		}
 		defer out.close()
 		c11BufEnd(out, seed())
+		c11PipeClose(out, seed())
 		return nil
 	case "replay":
 		out, err := newND(args[2])
